@@ -137,6 +137,7 @@ def run_property(prop, tier="quick", replay=None):
     violations = []     # (replay payload, suffix)
     known = []
     known_keys = collections.Counter()
+    broken_streams = []
     thorough = tier == "thorough"
 
     # ---- A/B: Gen tables, Lean build, axiom audit
@@ -189,6 +190,10 @@ def run_property(prop, tier="quick", replay=None):
             samples.append({"stream": sname, "case": c, "obs": _trim(o, 600)})
         all_dis += r["disagreements"]
         all_hits += r["hits"]
+        n_int = sum(1 for o in r["obs"] if isinstance(o, dict) and o.get("error") == "internal")
+        if r["obs"] and n_int > 0.5 * len(r["obs"]):
+            broken_streams.append(f"{sname}: {n_int} of {len(r['obs'])} cases raised inside the harness or the library before an observation could be made "
+                                  f"(e.g. {next(o for o in r['obs'] if isinstance(o, dict) and o.get('error') == 'internal').get('exc')})")
 
     # property-specific extra step (hash-seed sweeps, table checks, ...)
     extra_info = {}
@@ -287,6 +292,12 @@ def run_property(prop, tier="quick", replay=None):
         print(k)
     for path, suffix in violations:
         print(f"VIOLATION property={prop} replay={os.path.relpath(path, C.VERIF)}{suffix}")
+    if broken_streams and not violations:
+        # more than half of a stream's cases produced no observation at all and no monitor objected: the check decided nothing
+        for b in broken_streams:
+            print(f"CHECK-BROKEN property={prop} {b}")
+        print(f"[{prop}] tier={tier} seed={C.seed()} the check itself failed (exit 2)")
+        return 2
     print(f"[{prop}] tier={tier} seed={C.seed()} theorems={n_thm - len(st.failed)}/{n_thm} lean_ok={st.ok} cases={total_cases} "
           f"compared={compared} disagreements={len(all_dis)} monitor_hits={len(all_hits)} violations={len(violations)} wall={wall:.1f}s")
     if not st.ok:
